@@ -245,6 +245,9 @@ def run(chk, b, tier):
                              (["-v", "--names=hash"], {"GIT_CONFIG_COUNT": "1", "GIT_CONFIG_KEY_0": "sizer.names", "GIT_CONFIG_VALUE_0": "none"}),
                              ([], {"GIT_CONFIG_COUNT": "1", "GIT_CONFIG_KEY_0": "sizer.threshold", "GIT_CONFIG_VALUE_0": "0"})):
                 R.fault_probe(chk, "C14", sz, gitdir, fa + ["--no-progress"], rng, b.shimdir(), d, n=4 if tier == "quick" else 25, env=envx)
+                # every `git config` child of such a run failing at every point: success must mean the configured behaviour
+                R.fault_sweep(chk, "C14", sz, gitdir, fa + ["--no-progress"], b.shimdir(), d, env=envx,
+                              only=["config"] if tier == "quick" else None)
     jobs, res = R.pmap(pair_job, jobs, chunksize=4, chk=chk, with_items=True)
     fams = {}
     for job, (viol, nruns) in zip(jobs, res):
